@@ -37,7 +37,7 @@ ASSUMPTIONS = [
 
 def run(ctx: Ctx):
   m = model(ctx)
-  for r in (r1, r2, r3, r4, r5, r7, r8, r9):
+  for r in (r1, r2, r3, r4, r5, r7, r8, r9, r10):
     ctx.guard(r, m)
   from mlmverif.props import c04
   ctx.include('R-C05-6', '"never an indefinite wait": the queue\'s monitor'
@@ -617,6 +617,124 @@ def r9(ctx: Ctx, m):
   ctx.floor(rule, 1, 1)
 
 
+_PRODUCER_ENTRIES = ('enqueue_from_iterator', 'async_enqueue_from_iterator')
+
+
+def _launch_sites(repo):
+  """(function, call/attr node, entry name, handle kept?) for every place a producer is launched."""
+  out = []
+  for fi in repo.all_functions():
+    if fi.module.name.endswith('_test'):
+      continue
+    inspects = any(isinstance(c, ast.Call) and isinstance(c.func, ast.Attribute) and c.func.attr in (
+        'exception', 'result') for c in ast.walk(fi.node))
+    pm = None
+    for x in ast.walk(fi.node):
+      if not (isinstance(x, ast.Attribute) and x.attr in _PRODUCER_ENTRIES):
+        continue
+      if fi.name in _PRODUCER_ENTRIES:
+        continue
+      if pm is None:
+        from mlmverif.core import parent_map
+        pm = parent_map(fi.node)
+      # climb to the enclosing statement
+      q, stmt, launcher = x, None, None
+      while q is not None:
+        par = pm.get(q)
+        if isinstance(par, ast.Call) and launcher is None and par.func is not q:
+          launcher = par          # the producer is an ARGUMENT of this call (submit / Thread / run_coroutine...)
+        if isinstance(par, ast.stmt):
+          stmt = par
+          break
+        q = par
+      direct = launcher is None   # plain call in the current thread: the failure propagates to the caller
+      lazy = False
+      if launcher is not None and isinstance(launcher.func, ast.Attribute) and launcher.func.attr in _PRODUCER_ENTRIES:
+        launcher = None
+      kept = direct
+      if launcher is not None:
+        ltxt = unparse(launcher.func)
+        if 'Thread' in ltxt:
+          kept = False
+        elif isinstance(stmt, ast.Assign) and inspects and 'call' not in ltxt.split('.')[-1]:
+          kept = True
+        else:
+          kept = False
+      out.append((fi, x, x.attr, kept))
+  return out
+
+
+def r10(ctx: Ctx, m):
+  rule = 'R-C05-10'
+  ctx.rule(rule, '"if any producer\'s iterator raises, every consumer observes that'
+           ' exception (never an indefinite wait)": a producer entry that is launched'
+           ' where nobody reads its outcome (thread target, pool.submit / remote call'
+           ' whose future is dropped) must itself record EVERY failure of the'
+           ' iterable: each call into the iterable parameter (iter/aiter/next/anext/'
+           ' await) has all its exceptional continuations pass a store of'
+           ' self._exception (or an ignore-and-continue) — a call outside the'
+           ' recording try, e.g. iter(x) before the loop, dies in the discarded'
+           ' future, nothing is recorded, enqueue_done never becomes true and the'
+           ' consumers wait for ever')
+  repo = ctx.repo
+  sites = _launch_sites(repo)
+  if len(sites) < 4:
+    raise AnalysisError(f'{rule}: only {len(sites)} producer launch sites found (5 confirmed)')
+  dropped = {}
+  for fi, node, entry, kept in sites:
+    if not kept:
+      dropped.setdefault(entry, []).append((fi, node))
+  n = 0
+  for entry in _PRODUCER_ENTRIES:
+    fe = next((f for f in repo.all_functions() if f.name == entry and f.cls is not None
+               and any(f.cls.name == c.name for c in m.classes)), None)
+    if fe is None:
+      raise AnalysisError(f'{rule}: producer entry {entry} not found')
+    if entry not in dropped:
+      ctx.info(rule, fe, f'{entry}: every launch site keeps and inspects the future')
+      continue
+    p = fe.params()[1]
+    g = cfgm.cfg_of(fe.node)
+
+    def user_call(nd, p=p):
+      for x in cfgm.node_exprs(nd):
+        if isinstance(x, ast.Call) and unparse(x.func) in ('iter', 'aiter', 'next', 'anext') and x.args and (
+            isinstance(x.args[0], ast.Name) and x.args[0].id == p):
+          return x
+        if isinstance(x, ast.Await) and isinstance(x.value, ast.Name) and x.value.id == p:
+          return x
+      return None
+
+    def records(nd):
+      return isinstance(nd.ast, ast.Assign) and any(is_self_attr(t, '_exception') for t in nd.ast.targets)
+
+    calls = [nd for nd in g.nodes if nd.kind in ('stmt', 'cond') and user_call(nd) is not None]
+    if not calls:
+      raise AnalysisError(f'{rule}: {entry} no longer calls into its iterable parameter `{p}`')
+    for nd in calls:
+      n += 1
+      excs = [s_ for s_, lab in nd.succ if lab == 'exc']
+      uncovered = None
+      if any(s_ is g.exit_exc for s_ in excs):
+        uncovered = 'it is outside every try block'
+      else:
+        for h in excs:
+          w = g.must_pass(h, [g.exit_exc, g.exit_ret], records,
+                          lambda a, b, lab: lab not in ('close', 'cont') and (lab != 'exc' or isinstance(a.ast, ast.Raise)))
+          if w is not None and not (h.exc_types and set(h.exc_types) <= {'StopIteration', 'StopAsyncIteration'}):
+            uncovered = f'the handler `{h.text()}` can leave without recording the failure'
+      launch_fi, _ = dropped[entry][0]
+      if uncovered:
+        ctx.fail(rule, fe, f'{fe.qualname}: every call into `{p}` is covered by the failure-recording handler',
+                 f'`{unparse(user_call(nd))}` can raise user code of the iterable but {uncovered}:'
+                 f' {entry} is launched with its outcome dropped (e.g. in {launch_fi.qualname}), so the'
+                 ' failure reaches nobody — self._exception stays None, enqueue_done never becomes'
+                 ' true and every consumer of the queue waits for ever', node=nd.ast)
+      else:
+        ctx.ok(rule, fe, f'{entry}: `{unparse(user_call(nd))}` failures are recorded', nd.ast)
+  ctx.floor(rule, 2, n)
+
+
 from mlmverif.selfcheck import B, OK  # noqa: E402
 
 _F = 'utils/iter_utils.py'
@@ -660,9 +778,15 @@ VARIANTS = [
       '          if self.enqueue_done:\n            break\n          if self._enqueue_lock.wait(timeout=self.timeout):',
       '          if self._enqueue_lock.wait(timeout=self.timeout):', 'R-C05-3'),
     B('enqueue-loop-ignores-stop', _F,
-      '    self._start_enqueue()\n    while not self.enqueue_done:\n      try:\n        self.put(next(iterator))',
-      '    self._start_enqueue()\n    while True:\n      try:\n        self.put(next(iterator))',
+      '      raise e\n    while not self.enqueue_done:\n      try:\n        self.put(next(iterator))',
+      '      raise e\n    while True:\n      try:\n        self.put(next(iterator))',
       'R-C05-3'),
+    B('revert-iter-failure-recorded', _F,
+      '    self._start_enqueue()\n    try:\n      iterator = iter(iterator)\n    except Exception as e:  # pylint: disable=broad-exception-caught\n      # The iterable can fail before yielding anything, e.g., when opening its\n      # source: the consumers have to see this as any other enqueue failure.\n      e.add_note(f\'Exception during enqueueing "{self.name}".\')\n      logging.exception(\'chainable: %s\', f\'"{self.name}" enqueue failed.\')\n      self._exception = e\n      self._stop_enqueue()\n      raise e\n',
+      '    iterator = iter(iterator)\n    self._start_enqueue()\n', 'R-C05-10'),
+    B('iter-failure-handler-forgets-to-record', _F,
+      '      logging.exception(\'chainable: %s\', f\'"{self.name}" enqueue failed.\')\n      self._exception = e\n      self._stop_enqueue()\n      raise e\n    while not',
+      '      logging.exception(\'chainable: %s\', f\'"{self.name}" enqueue failed.\')\n      self._stop_enqueue()\n      raise e\n    while not', 'R-C05-10'),
     B('wait-without-timeout', _F,
       '          if self._enqueue_lock.wait(timeout=self.timeout):\n            continue',
       '          if self._enqueue_lock.wait():\n            continue', 'R-C05-4'),
